@@ -18,6 +18,9 @@ Line-protocol driver for the C01 model (kv manifest / crash recovery).
   enc <fid> <log> ...                     hex of editLog.marshal
   dec <hex>                               editLog.unmarshal
   entries <B> <len,len,...>               bufio entry framing: write, read back with a B-byte read buffer
+  bw <op,op,...>                          buffered entry writer (buffer size = regenerated defaultWriteBufferSize): w<len> Write,
+                                          f Flush, s Sync, c Close; per op `file/buffered` sizes; after s also the read-back
+                                          of the FILE (what a kill leaves): r=<records>,<clean end>,<equal to the records written>
   cfrace <name> <point> <seq>             two concurrent creators of one new family (creators' model, lock region as regenerated)
   cfwitness <name>                        two creators, flusher of the unpublished object, cleanup of the published one
 
@@ -26,6 +29,7 @@ log tokens: nf,l,f,min,max,size  df,l,f  next,n  nr,f,i  dr,f,i  nref,storehex,f
 import LinVerif.Util.Proto
 import LinVerif.Model.KvFs
 import LinVerif.Model.Entries
+import LinVerif.Model.C01Writer
 import LinVerif.Model.C01CreateFam
 import LinVerif.Generated.C01
 
@@ -217,6 +221,31 @@ def crashOut (cfg : Cfg) (d : Disk) (showTrace : Bool := true) : String :=
 def cfCfg : C01CF.Cfg :=
   ⟨Generated.C01.createFamilyLockHeldToReturn && Generated.C01.createFamilyPublishesAfterLock == 1,
    Generated.C01.createFamilyRechecksUnderLock⟩
+
+/-- op `bw`: the buffered writer model on a list of op tokens; record contents generated from the index of the write -/
+def bwRun (B : Nat) : List String → Nat → BW.WState → List Bytes → List String → Option (List String)
+  | [], _, _, _, acc => some acc.reverse
+  | t :: ts, i, st, recs, acc =>
+    if t = "f" then
+      let st' := BW.stepW B st .flush
+      bwRun B ts i st' recs (s!"{st'.file.length}/{st'.buf.length}" :: acc)
+    else if t = "c" then
+      let st' := BW.stepW B st .close
+      bwRun B ts i st' recs (s!"{st'.file.length}/{st'.buf.length}" :: acc)
+    else if t = "s" then
+      let st' := BW.stepW B st .sync
+      let r := readEntries Generated.C01.defaultReadBufferSize st'.file
+      bwRun B ts i st' recs (s!"{st'.file.length}/{st'.buf.length} r={r.1.length},{r.2},{decide (r.1 = recs)}" :: acc)
+    else match t.toList with
+      | 'w' :: ds =>
+        match (String.ofList ds).toNat? with
+        | some n =>
+          let rec_ : Bytes := (List.range n).map (fun j => (i * 31 + j * 7 + 3) % 251)
+          let st' := BW.stepW B st (.write rec_)
+          bwRun B ts (i + 1) st' (recs ++ [rec_]) (s!"{st'.file.length}/{st'.buf.length}" :: acc)
+        | none => none
+      | _ => none
+
 
 def step (s : DSt) (ws : List String) : DSt × String :=
   match ws with
@@ -410,6 +439,10 @@ def step (s : DSt) (ws : List String) : DSt × String :=
       let sums := r.1.map (fun rec => s!"{rec.length}:{rec.foldl (fun a x => (a * 131 + x) % 1000003) 7}")
       (s, s!"ok n={r.1.length} clean={r.2} {" ".intercalate sums}")
     | _, _ => (s, "bad-op")
+  | ["bw", opsS] =>
+    match bwRun Generated.C01.defaultWriteBufferSize (opsS.splitOn ",") 0 BW.WState.init [] [] with
+    | some outs => (s, " ".intercalate outs)
+    | none => (s, "bad-op")
   | ["dec", h] =>
     match unhex h with
     | some b =>
